@@ -467,7 +467,7 @@ func runC14(c *Check, a *Analysis) {
 			default:
 				return
 			}
-			if fn.Name() == "run" {
+			if fname(fn) == "(*Transport).run" {
 				return // housekeeping pings
 			}
 			nforms++
